@@ -310,7 +310,7 @@ thread_local! {
     static IN_OP: std::cell::Cell<bool> = const { std::cell::Cell::new(false) };
     /// the same flag, shared with the watchdog thread of the runner (which must tell a library
     /// operation that never reaches a seam from a loop in generator or oracle code)
-    pub static IN_OP_SHARED: std::cell::RefCell<Option<std::sync::Arc<std::sync::atomic::AtomicBool>>> = const { std::cell::RefCell::new(None) };
+    pub static IN_OP_SHARED: std::cell::RefCell<Option<std::sync::Arc<std::sync::atomic::AtomicU64>>> = const { std::cell::RefCell::new(None) };
 }
 
 /// Installed once per process: records the panic message for the oracle and prints nothing.
@@ -385,16 +385,17 @@ impl Sim {
             s.log.str(name);
         }
         IN_OP.with(|f| f.set(true));
+        // odd = inside a library operation; the value names the operation instance
         IN_OP_SHARED.with(|f| {
             if let Some(a) = f.borrow().as_ref() {
-                a.store(true, std::sync::atomic::Ordering::Relaxed);
+                a.fetch_add(1, std::sync::atomic::Ordering::Relaxed);
             }
         });
         let r = catch_unwind(AssertUnwindSafe(f));
         IN_OP.with(|f| f.set(false));
         IN_OP_SHARED.with(|f| {
             if let Some(a) = f.borrow().as_ref() {
-                a.store(false, std::sync::atomic::Ordering::Relaxed);
+                a.fetch_add(1, std::sync::atomic::Ordering::Relaxed);
             }
         });
         let mut s = self.state.borrow_mut();
